@@ -185,6 +185,7 @@ type scenario struct {
 	events    []string
 	owner     uint64
 	tl        map[string]*timeline
+	idle      map[*litefs.DB]bool // databases on which an idle WAL-mode application connection is held open
 }
 
 func (s *scenario) logf(f string, a ...any) { s.events = append(s.events, fmt.Sprintf(f, a...)) }
@@ -198,7 +199,39 @@ func (s *scenario) replay(what string) map[string]any {
 }
 
 // checkReplica compares what an application sees on node n with the primary's image at the position n reports.
+// idleConnection: an application connection that has the database open in WAL mode and is doing nothing holds the
+// database file's SHARED lock and the wal-index DMS lock, both shared, for as long as it is open. Replication goes on
+// underneath it.
+func (s *scenario) idleConnection(n *cluster.Node) {
+	if s.idle == nil {
+		s.idle = map[*litefs.DB]bool{}
+	}
+	db := n.Store.DB("db")
+	if db == nil || s.idle[db] || db.VerifPageSize() == 0 {
+		return
+	}
+	hdr := make([]byte, 20)
+	f, err := os.Open(filepath.Join(n.Dir, "dbs", "db", "database"))
+	if err != nil {
+		return
+	}
+	_, err = f.ReadAt(hdr, 0)
+	f.Close()
+	if err != nil || hdr[18] != 2 || hdr[19] != 2 {
+		return
+	}
+	const owner = 77077
+	if db.TryRLocks(bg, owner, []litefs.LockType{litefs.LockTypeShared}) && db.TryRLocks(bg, owner, []litefs.LockType{litefs.LockTypeDMS}) {
+		s.idle[db] = true
+		s.logf("idle WAL-mode connection opened on %s", n.Name)
+		s.c.Count("idle_wal_connections", 1)
+	}
+}
+
 func (s *scenario) checkReplica(n *cluster.Node) {
+	if s.cfg.ForceWAL {
+		s.idleConnection(n)
+	}
 	s.owner++
 	img, txid, chk, ok := readAsApp(n, s.caches[n.Name], "db", 5000+s.owner)
 	if !ok || txid == 0 {
@@ -473,6 +506,9 @@ func Run(c *common.Ctx) error {
 		if err := retentionRejoin(c, i); err != nil {
 			return err
 		}
+	}
+	if err := retentionOff(c); err != nil {
+		return err
 	}
 	for i := 0; i < c.Pick(1, 3); i++ {
 		if err := multiDB(c, i); err != nil {
